@@ -11,6 +11,7 @@ import (
 	"runtime/debug"
 	"strconv"
 	"strings"
+	"sync"
 	"testing"
 
 	"pgregory.net/rapid"
@@ -1863,6 +1864,170 @@ func TestC15RapidHugeSeq(t *testing.T) {
 }
 
 // =============================================================================================
+// C16: sequences of decodes over records whose bodies collide under a cheap hash
+
+func record16K(c Case16K, info Info16K) {
+	st := vstat.For("C16")
+	st.Case(info.NonTrivial(), c.Hash(), func() any { return c }, info.Classes()...)
+	if info.Mode == 2 {
+		st.AddExtra("collision_pairs_decoded_at_the_same_time_"+info.Hash, int64(info.Pairs))
+	} else {
+		st.AddExtra("collision_pairs_decoded_back_to_back_"+info.Hash, int64(info.Pairs))
+	}
+	st.AddExtra("collision_sequence_decoder_calls", int64(info.Calls))
+}
+
+// collisionLens: body lengths of the enumerated collision cases (each is raised to the minimum of its hash kind).
+var collisionLens = []int{2, 3, 5, 8, 9, 16, 17, 24, 33, 64, 65, 100, 255, 256, 1000, 4096, 70000}
+
+// TestC16Collisions: every hash kind x body length x {one goroutine, hand-over, at the same time}, 2..4 bodies.
+func TestC16Collisions(t *testing.T) {
+	st := vstat.For("C16")
+	shard, shards := vstat.Shard()
+	ran, idx := int64(0), 0
+	for _, h := range CollisionHashes {
+		for li, l := range collisionLens {
+			for mode := 0; mode <= 2; mode++ {
+				idx++
+				if idx%shards != shard {
+					continue
+				}
+				c := Case16K{Kind: h, L: l, K: 2 + (li+mode)%3, Seed: uint64(idx)*1000003 + uint64(vstat.EnvInt("VERIF_SEED", 1)), Pad: []int{0, 0, 1, 3}[(li+idx)%4], More: []int{0, 3}[idx/3%2], Mode: mode, P1: idx%5 == 0}
+				info, v := Run16K(c)
+				if v != nil {
+					st.Report(t, "TestC16Collisions", c, v)
+				}
+				record16K(c, info)
+				ran++
+			}
+		}
+	}
+	st.SetExhaustive("collision_sequences", map[string]any{"hashes": CollisionHashes, "body_lengths": collisionLens, "cases": ran, "shards": shards})
+}
+
+func genCollision(t *rapid.T) Case16K {
+	c := Case16K{Kind: rapid.SampledFrom(CollisionHashes).Draw(t, "hash"), K: rapid.IntRange(2, 4).Draw(t, "bodies"), Seed: rapid.Uint64().Draw(t, "seed")}
+	switch rapid.IntRange(0, 9).Draw(t, "lenClass") {
+	case 0:
+		c.L = genBigLen(t, 16)
+	case 1, 2:
+		c.L = rapid.IntRange(2, 600).Draw(t, "len")
+	default:
+		c.L = rapid.IntRange(2, 48).Draw(t, "len")
+	}
+	if rapid.IntRange(0, 3).Draw(t, "padded") == 0 {
+		c.Pad = rapid.IntRange(1, 3).Draw(t, "pad")
+	}
+	if rapid.IntRange(0, 3).Draw(t, "followed") == 0 {
+		c.More = rapid.IntRange(1, 20).Draw(t, "more")
+	}
+	c.Mode = rapid.SampledFrom([]int{0, 0, 1, 2}).Draw(t, "mode")
+	c.P1 = c.Mode != 0 && rapid.IntRange(0, 3).Draw(t, "gomaxprocs1") == 0
+	return c
+}
+
+func TestC16RapidCollisions(t *testing.T) {
+	st := vstat.For("C16")
+	rapid.Check(t, func(t *rapid.T) {
+		c := genCollision(t)
+		info, v := Run16K(c)
+		if v != nil {
+			st.Report(t, "TestC16RapidCollisions", c, v)
+		}
+		record16K(c, info)
+	})
+}
+
+// =============================================================================================
+// C16: inputs that live on the goroutine stack, decoded while the stack grows
+
+var stackNote sync.Once
+
+func record16S(c Case16S, info Info16S) {
+	st := vstat.For("C16")
+	st.Case(info.NonTrivial(), c.Hash(), func() any { return c }, info.Classes()...)
+	st.AddExtra("stack_input_decoder_calls", int64(info.Calls))
+	st.AddExtra("stack_input_decoder_calls_during_which_the_stack_moved", int64(info.Moved))
+	if info.Calls > 0 && info.OnStack == 0 {
+		stackNote.Do(func() {
+			st.Inconclusivef("stack inputs: the local array of the probe does not lie next to another local of its frame - it seems to be heap allocated in this build, so inputs on the goroutine stack are not exercised")
+		})
+	}
+}
+
+// stackInputs: fixed inputs of the enumerated stack cases (valid records, numbers, rejected inputs).
+var stackInputs = []string{"", "00", "0161", "05616263646500", "1168656c6c6f2d737461636b2d696e707574", "8100", "ff7f", "0102030405060708", "0561", "80", "ffffffffffffffffff01", "8000" + "41"}
+
+// TestC16StackInputs: every Unmarshal function x fixed inputs x frame size class, a descent across the first stack sizes.
+func TestC16StackInputs(t *testing.T) {
+	st := vstat.For("C16")
+	shard, shards := vstat.Shard()
+	ran, idx := int64(0), 0
+	long := "3c" + strings.Repeat("6a", 60)
+	for d := range decoders16 {
+		for ii, in := range append([]string{long, "c801" + strings.Repeat("5a", 200)}, stackInputs...) {
+			for step := 0; step <= 2; step++ {
+				idx++
+				if idx%shards != shard {
+					continue
+				}
+				c := Case16S{In: in, D: d, Big: (ii+step)%4 == 3, Pre: (idx * 7) % 64, Depth: []int{1500, 900, 400}[step], Step: step}
+				info, v := Run16S(c)
+				if v != nil {
+					st.Report(t, "TestC16StackInputs", c, v)
+				}
+				record16S(c, info)
+				ran++
+			}
+		}
+	}
+	st.SetExhaustive("stack_inputs", map[string]any{"inputs": len(stackInputs) + 2, "functions": len(decoders16), "cases": ran, "shards": shards})
+}
+
+func genStackCase(t *rapid.T) Case16S {
+	var in []byte
+	switch rapid.IntRange(0, 5).Draw(t, "inputKind") {
+	case 0:
+		in = genGrammar(t)
+	case 1:
+		in = genMutated(t)
+	default: // a complete record, sometimes followed by more
+		n := rapid.IntRange(0, 60).Draw(t, "bodyLen")
+		if rapid.IntRange(0, 5).Draw(t, "longBody") == 0 {
+			n = rapid.IntRange(61, 1000).Draw(t, "bodyLen")
+		}
+		pad := 0
+		if rapid.IntRange(0, 5).Draw(t, "padded") == 0 {
+			pad = rapid.IntRange(1, 3).Draw(t, "pad")
+		}
+		in = PutUvarint(nil, uint64(n), pad)
+		body := make([]byte, n+rapid.IntRange(0, 1).Draw(t, "more")*3)
+		fillStream(body, 0, rapid.Uint64().Draw(t, "seed"))
+		in = append(in, body...)
+	}
+	if len(in) > 1024 {
+		in = in[:1024]
+	}
+	c := Case16S{In: hex.EncodeToString(in), D: rapid.IntRange(0, len(decoders16)-1).Draw(t, "function"), Step: rapid.IntRange(0, 2).Draw(t, "frameClass"),
+		Pre: rapid.IntRange(0, 63).Draw(t, "pre")}
+	c.Big = len(in) > 64 || rapid.IntRange(0, 3).Draw(t, "bigArray") == 0
+	c.Depth = rapid.IntRange(100, []int{3000, 1800, 800}[c.Step]).Draw(t, "depth")
+	return c
+}
+
+func TestC16RapidStackInputs(t *testing.T) {
+	st := vstat.For("C16")
+	rapid.Check(t, func(t *rapid.T) {
+		c := genStackCase(t)
+		info, v := Run16S(c)
+		if v != nil {
+			st.Report(t, "TestC16RapidStackInputs", c, v)
+		}
+		record16S(c, info)
+	})
+}
+
+// =============================================================================================
 
 // TestReplay re-runs one saved case; the envelope's test name tells which case type it holds.
 func TestReplay(t *testing.T) {
@@ -1927,6 +2092,22 @@ func TestReplay(t *testing.T) {
 		info, v := Run16L(c)
 		vstat.For("C16").Report(t, "TestReplay", c, v)
 		record16L(c, info)
+	case strings.Contains(env.Test, "Collisions"):
+		var c Case16K
+		if _, err := vstat.LoadReplay(p, &c); err != nil {
+			t.Fatalf("cannot load %s: %v", p, err)
+		}
+		info, v := Run16K(c)
+		vstat.For("C16").Report(t, "TestReplay", c, v)
+		record16K(c, info)
+	case strings.Contains(env.Test, "StackInputs"):
+		var c Case16S
+		if _, err := vstat.LoadReplay(p, &c); err != nil {
+			t.Fatalf("cannot load %s: %v", p, err)
+		}
+		info, v := Run16S(c)
+		vstat.For("C16").Report(t, "TestReplay", c, v)
+		record16S(c, info)
 	case strings.Contains(env.Test, "FirstUse"):
 		var c Case16F
 		if _, err := vstat.LoadReplay(p, &c); err != nil {
